@@ -32,7 +32,7 @@ COMMENTS = [
     "plain words", "TODO: fix", "states(x=1)", "expressions(\"A\")", "#", "##", "# nested # hashes", "\"quoted\"", "it's", "tab\there",
     "maximal conductance of the background calcium current, fitted to the data of reference 12; see text.",
     "aaaaaaaaaaaaaaaaaaaaaaaaaaaaaaaaaaaaaaaaaaaaaaaa!", "ms ) unbalanced", "1e400", "- 5", "*", "pi", "exp(1)", "Conditional(1,2,3)",
-    "ümlaut µA", "mV   ", "   mV", "1/(ms*mV)", "kelvin**-1", "degC", "0", "-", "--", "a,b,c",
+    "ümlaut µA", "mV   ", "   mV", "1/(ms*mV)", "kelvin**-1", "degC", "0", "-", "--", "a,b,c", "", "   ",
     # characters that str.splitlines() / some editors treat as line ends but the grammar does not (vertical tab, form feed,
     # file / group / record separators, NEL, LINE SEPARATOR, PARAGRAPH SEPARATOR), followed by something that looks like a statement
     "before:\x0bi_old = 1", "page\x0cx = 2", "fs\x1cq_new = 3", "gs\x1dstates(u=1)", "rs\x1edx_dt = 0", "nel\x85i_old = 1",
@@ -68,8 +68,7 @@ def decorate(model, rng, what):
     base_lines = None
     cm = rng.choice(COMMENTS)
     if what == "comment_lines":
-        # before the first block and between declaration blocks (never inside an expressions block or
-        # directly after a block header: known findings, exercised by directed cases)
+        # before the first block and between declaration blocks (inside headed expression blocks: "comment_in_block")
         bl = m["blocks"]
         pos = [i for i in range(len(bl) + 1) if (i == 0 or bl[i - 1]["kind"] != "expressions")]
         for p in sorted(rng.sample(pos, k=min(len(pos), rng.randint(1, 3))), reverse=True):
@@ -78,7 +77,7 @@ def decorate(model, rng, what):
     if what == "trailing":
         lines = [(b, ln) for b in m["blocks"] if b["kind"] == "expressions" for ln in b["lines"]]
         for b, ln in rng.sample(lines, k=min(len(lines), rng.randint(1, 3))):
-            c = rng.choice([c_ for c_ in COMMENTS if c_.strip() and not c_.startswith("#") and c_ not in ("-", "--", "*")])
+            c = rng.choice([c_ for c_ in COMMENTS if not c_.startswith("#") and c_ not in ("-", "--", "*")])
             ln["comment"] = c
         return lang.render_model(m), {"decoration": what}
     if what == "annotations":
@@ -120,6 +119,23 @@ def decorate(model, rng, what):
                 i = line.index("(", line.index(" = "))
                 line = line[: i + 1] + "\n      " + line[i + 1:]
             out.append(line)
+        return "\n".join(out) + "\n", {"decoration": what}
+    if what == "comment_in_block":
+        # comment lines inside headed expression blocks: directly after the header, between two assignments, after the last one
+        out = []
+        headed = False
+        lines_ = text.splitlines()
+        for k_, line in enumerate(lines_):
+            out.append(line)
+            st = line.lstrip()
+            if st.startswith(("expressions(", "component(")):
+                headed = True
+            elif st.startswith(("states(", "parameters(")):
+                headed = False
+            if headed and rng.random() < 0.4:
+                for _ in range(rng.choice([1, 1, 2])):
+                    c = rng.choice([c_ for c_ in COMMENTS if "\n" not in c_ and "\r" not in c_])
+                    out.append("# " + c)
         return "\n".join(out) + "\n", {"decoration": what}
     if what == "layout":
         # any white space (blanks, tabs, line feeds, CR LF, form feeds) between the tokens of a right-hand side wherever the
@@ -258,7 +274,7 @@ def main(argv=None):
             if cd.err is not None or view(cd) != base_view0:
                 rep.violation(f"the annotation {ann[:60]!r} changes the model: {cd.err or 'component membership / layout differ'}",
                               {"kind": "direct", "text": base, "decorated": deco, "decoration": kind_, "error": cd.err})
-    kinds = ["comment_lines", "trailing", "annotations", "blank_lines", "indentation", "crlf", "crlf_blank_lines", "continuation", "layout"]
+    kinds = ["comment_lines", "trailing", "annotations", "blank_lines", "indentation", "crlf", "crlf_blank_lines", "continuation", "layout", "comment_in_block"]
     for i in range(n):
         got = family.new_case(drv, rng, gen, rep, n_comps=rng.choice([1, 2, 3]))
         if got is None:
